@@ -320,10 +320,9 @@ def run(ctx) -> None:
         pos = [a for a in r.atoms if r.implies(BF.var(a))]
         hit = False
         for a in pos:
-            tree = ast.parse(a, mode="eval").body
-            cs = shapes.compare_shape(tree)
-            if cs and cs[0] == "==" and isinstance(cs[2], ast.Constant) and isinstance(cs[2].value, str) and cs[2].value.startswith("["):
-                headers.add(cs[2].value)
+            hs = header_literals_of_test(prog, dp, ast.parse(a, mode="eval").body)
+            if hs:
+                headers |= hs
                 hit = True
         exact = exact and hit
     want_h = {"[pycalver]", "[bumpver]", "[tool.bumpver]"}
@@ -356,6 +355,23 @@ def run(ctx) -> None:
                                        or (isinstance(rv[0].value, ast.Name) and shapes.loop_as_listcomp(cps2, rv[0].value.id, prog) is not None)
                                        or (isinstance(rv[0].value, ast.Call) and unparse(rv[0].value.func) in ("list", "sorted")))
         ctx.check("R6", fresh_list, f"{modname}.compile_patterns builds a new list", f"{modname}.compile_patterns may return a shared list", "", loc=cps2.loc())
+
+
+def header_literals_of_test(prog, fn, tree: ast.AST) -> T.Set[str]:
+    """Header strings that make an exact test true: `x == "[bumpver]"` or `x in ("[bumpver]", ...)` (collection folded)."""
+    cs = shapes.compare_shape(tree)
+    if cs and cs[0] == "==" and isinstance(cs[2], ast.Constant) and isinstance(cs[2].value, str) and cs[2].value.startswith("["):
+        return {cs[2].value}
+    if cs and cs[0] == "==" and isinstance(cs[1], ast.Constant) and isinstance(cs[1].value, str) and cs[1].value.startswith("["):
+        return {cs[1].value}
+    if isinstance(tree, ast.Compare) and len(tree.ops) == 1 and isinstance(tree.ops[0], ast.In):
+        try:
+            coll = prog.fold(fn.module, tree.comparators[0])
+        except AnalysisError:
+            return set()
+        if isinstance(coll, (tuple, list, set, frozenset, dict)) and coll and all(isinstance(x, str) and x.startswith("[") for x in coll):
+            return set(coll)
+    return set()
 
 
 def all_patterns_found_rule(ctx, eng: str, rule: str) -> None:
